@@ -34,7 +34,9 @@ def encode(case, rows):
         return RunLength2dArray.from_array(np.array(rows))
     if case.get("via") == "from_array" and len({len(r) for r in rows}) == 1:
         return RunLengthRaggedArray.from_array(np.array(rows))
-    return RunLengthRaggedArray.from_ragged_array(RaggedArray(rows))
+    from ..oracle import lazy_ra
+    # "a ragged array with non-empty rows": freshly built or itself a pending selection
+    return RunLengthRaggedArray.from_ragged_array(lazy_ra(rows, case["dt"], case.get("src_lz", 0)) if "dt" in case else RaggedArray(rows))
 
 
 def torows(x):
@@ -96,9 +98,13 @@ def vec_close(g, e):
 def base(case, ctx):
     rows = dense_rows(case)
     structs = {tuple(rl.run_structure(r)) for r in rows}
-    ctx.label("kind:" + case["kind"], "dt:" + case["dt"], "rows:%d" % min(len(rows), 4))
+    ctx.label("kind:" + case["kind"], "dt:" + case["dt"], "rows:%d" % min(len(rows), 4),
+              "source:pending" if case["kind"] == "rag" and case.get("src_lz") else "source:fresh")
     ctx.nt(len(rows) >= 2 and len(structs) >= 2)
-    return rows, encode(case, rows)
+    enc = lib(encode, case, rows)
+    if not enc.ok:
+        raise Violation("encode:unexpected-refusal", got=enc.brief(), rows=jsonable([r.tolist() for r in rows]))
+    return rows, enc.value
 
 
 # ---------------------------------------------------------------- decode, meta, selection chains
@@ -414,7 +420,8 @@ def arr_st(draw, kinds=("2d", "rag"), min_rows=1):
         rows = [draw(row_st(dt, w)) for _ in range(nr)]
     else:
         rows = [draw(row_st(dt, draw(st.integers(1, 9)))) for _ in range(nr)]
-    return {"kind": kind, "dt": dt, "rows": rows, "via": draw(st.sampled_from(["from_ragged_array", "from_array"]))}
+    return {"kind": kind, "dt": dt, "rows": rows, "via": draw(st.sampled_from(["from_ragged_array", "from_array"])),
+            "src_lz": draw(st.sampled_from([0, 0, 0, 1, 2, 3, 4, 5, 6]))}
 
 
 RAW_SEL = st.one_of(
